@@ -1,11 +1,236 @@
 (* C07 - rationals are exact, the numeric tower coerces upward only as needed, vectorisation is element-wise.
-   Only statements here; every proof is `exact <lemma>` into Num/Tower_proofs.v. *)
-From Coq Require Import ZArith NArith QArith Qabs Qround Qreduction List Bool.
-From NV Require Import Common.Outcome Num.Tower Num.TowerSpec Num.Tower_proofs.
+   Only statements here; every proof is `exact <lemma>` into Num/Tower_*proofs.v.
+
+   Vocabulary (Num/TowerSpec.v): exact x = level int or rational; qval x = its value in Q;
+   wf x = a rational is in lowest terms (denominators are `positive` by type); reduced q = gcd(num, den) = 1;
+   q_binop op = the operator's meaning on Q (q_rem: truncating, q_div_floor: floor of the quotient,
+   q_mod_floor: a - b*floor(a/b)); exact_result r v rat = r is exact, in lowest terms, has value v and is at
+   level rational iff rat; lift F k x = x coerced upward to level k; level_op F op = the NNum method behind
+   + - * % // %%; pointwise2/pointwise1 = element-wise.  F : float_ops is the abstract float/complex
+   arithmetic (and exact->float conversion) every statement quantifies over. *)
+From Coq Require Import ZArith NArith QArith Qabs Qround Qreduction List Bool Lia.
+From NV Require Import Common.Outcome Num.Tower Num.TowerSpec Num.Tower_proofs Num.Tower_exact_proofs
+  Num.Tower_level_proofs Num.Tower_vec_proofs.
 Import ListNotations.
 Open Scope Z_scope.
 
-Theorem C07_rounding_exact : forall q : Q,
+(* + - * % // %% / on ints and rationals (divisor non-zero where one is needed): the exact Q result, in
+   lowest terms; at level rational iff an operand was rational or the operator is `/` (4/2 is the rational 2/1) *)
+Theorem C07_exact_level_ops : forall (F : float_ops) (op : binop) (a b : nnum),
+  op <> OPow -> exact a -> exact b -> wf a -> wf b ->
+  (needs_nonzero op = true -> ~ qval b == 0) ->
+  exists r, num_binop F op a b = Ok r /\
+    exact_result r (q_binop op (qval a) (qval b)) (level a = 1%nat \/ level b = 1%nat \/ op = ODiv).
+Proof. exact @exact_level_ops. Qed.
+Print Assumptions C07_exact_level_ops.
+
+(* a zero divisor: % // and %% raise, / falls back to the float quotient (infinity or NaN) *)
+Theorem C07_exact_zero_divisor : forall (F : float_ops) (a b : nnum), exact a -> exact b -> qval b == 0 ->
+  num_binop F ORem a b = Err EValue /\
+  num_binop F ODivFloor a b = Err EValue /\ num_binop F OModFloor a b = Err EValue /\
+  num_binop F ODiv a b = Ok (NF (fdiv F (to_f_total F a) (to_f_total F b))).
+Proof. exact @exact_zero_divisor. Qed.
+Print Assumptions C07_exact_zero_divisor.
+
+(* (a // b) * b + (a %% b) == a;  0 <= a %% b < b for b > 0  (and b < a %% b <= 0 for b < 0) *)
+Theorem C07_rat_floor_mod_identity : forall (F : float_ops) (a b d m : nnum),
+  exact a -> exact b -> wf a -> wf b ->
+  num_binop F ODivFloor a b = Ok d -> num_binop F OModFloor a b = Ok m ->
+  (qval d * qval b + qval m == qval a)%Q /\
+  ((0 < qval b)%Q -> (0 <= qval m)%Q /\ (qval m < qval b)%Q) /\
+  ((qval b < 0)%Q -> (qval b < qval m)%Q /\ (qval m <= 0)%Q).
+Proof. exact @rat_floor_mod_identity. Qed.
+Print Assumptions C07_rat_floor_mod_identity.
+
+(* finding F6 (repaired in /repo): the original rational mod_floor broke the identity and the range *)
+Theorem C07_rat_floor_mod_identity_original_refuted : forall F : float_ops, exists a b d m,
+  exact a /\ exact b /\ wf a /\ wf b /\
+  num_binop_original F ODivFloor a b = Ok d /\ num_binop_original F OModFloor a b = Ok m /\
+  ~ (qval d * qval b + qval m == qval a)%Q /\ (0 < qval b)%Q /\ ~ (0 <= qval m)%Q.
+Proof. exact @rat_floor_mod_identity_original_refuted. Qed.
+Print Assumptions C07_rat_floor_mod_identity_original_refuted.
+
+(* a ^ e, e any integer: exact (Qpower), lowest terms; rational iff the base was or e < 0 *)
+Theorem C07_pow_exact : forall (F : float_ops) (a : nnum) (e : Z),
+  exact a -> wf a -> (e < 0 -> ~ qval a == 0) ->
+  exists r, num_binop F OPow a (NI e) = Ok r /\ exact_result r (qval a ^ e) (level a = 1%nat \/ e < 0).
+Proof. exact @pow_exact. Qed.
+Print Assumptions C07_pow_exact.
+
+(* 0 ^ negative is 1 / 0: the float fallback of `/`, not a crash (finding F10, repaired in /repo) *)
+Theorem C07_pow_zero_negative : forall (F : float_ops) (a : nnum) (e : Z),
+  exact a -> wf a -> qval a == 0 -> e < 0 ->
+  num_binop F OPow a (NI e) = num_binop F ODiv (NI 1) a /\
+  num_binop F OPow a (NI e) = Ok (NF (fdiv F (z2f F 1) (to_f_total F a))).
+Proof. exact @pow_zero_negative. Qed.
+Print Assumptions C07_pow_zero_negative.
+
+Theorem C07_pow_zero_negative_original_panics : forall F : float_ops,
+  num_binop_original F OPow (NI 0) (NI (-1)) = Panic /\ num_binop_original F OPow (NR 0) (NI (-1)) = Panic.
+Proof. exact @pow_zero_negative_original_panics. Qed.
+Print Assumptions C07_pow_zero_negative_original_panics.
+
+(* + - * % // %% : the result level is the higher of the operands' levels ... *)
+Theorem C07_level_is_max : forall (F : float_ops) (op : binop) (f : nnum -> nnum -> outcome nnum) (a b r : nnum),
+  level_op F op = Some f -> f a b = Ok r -> level r = Nat.max (level a) (level b).
+Proof. exact @level_is_max. Qed.
+Print Assumptions C07_level_is_max.
+
+(* ... and the result is the operation carried out at that level on the coerced operands *)
+Theorem C07_level_op_commutes : forall (F : float_ops) (op : binop) (f : nnum -> nnum -> outcome nnum) (a b : nnum),
+  level_op F op = Some f ->
+  let k := Nat.max (level a) (level b) in
+  f a b = f (lift F k a) (lift F k b) /\ level (lift F k a) = k /\ level (lift F k b) = k.
+Proof. exact @level_op_commutes. Qed.
+Print Assumptions C07_level_op_commutes.
+
+(* coercion only goes upward, is the identity at or above the target, and int -> rational is exact *)
+Theorem C07_lift_upward : forall (F : float_ops) (k : nat) (x : nnum), (k <= 3)%nat ->
+  (level x <= level (lift F k x))%nat /\ ((k <= level x)%nat -> lift F k x = x) /\
+  (exact x -> k = 1%nat -> qval (lift F k x) == qval x /\ (wf x -> wf (lift F k x))).
+Proof. exact @lift_upward. Qed.
+Print Assumptions C07_lift_upward.
+
+(* the builtins are these methods; % // %% add the zero-divisor error of the builtin layer *)
+Theorem C07_builtin_of_level_op : forall (F : float_ops) (op : binop) (f : nnum -> nnum -> outcome nnum) (a b : nnum),
+  level_op F op = Some f ->
+  num_binop F op a b = match op with
+                       | ODivFloor | OModFloor => if is_nonzero b then f a b else Err EValue
+                       | ORem => if is_exact a && is_exact b && negb (is_nonzero b) then Err EValue else f a b
+                       | _ => f a b
+                       end.
+Proof. exact @builtin_of_level_op. Qed.
+Print Assumptions C07_builtin_of_level_op.
+
+(* no binary arithmetic builtin (+ - * % // %% / ^) crashes, on any pair of numbers of any levels *)
+Theorem C07_binops_no_panic : forall (F : float_ops) (op : binop) (a b : nnum), num_binop F op a b <> Panic.
+Proof. exact @binops_no_panic. Qed.
+Print Assumptions C07_binops_no_panic.
+
+(* nor does any unary builtin or conversion *)
+Theorem C07_unops_no_panic : forall (F : float_ops) (x : nnum),
+  (forall op, num_unop F op x <> Panic) /\ (forall c, num_conv F c x <> Panic).
+Proof. exact @unops_no_panic. Qed.
+Print Assumptions C07_unops_no_panic.
+
+(* num-rational's floor/ceil/trunc/round algorithms are floor, ceiling, truncation and round-half-away *)
+Theorem C07_rounding_algorithms : forall q : Q,
   rat_floor q = Qfloor q /\ rat_ceil q = Qceiling q /\ rat_trunc q = q_trunc q /\ rat_round q = q_round q.
 Proof. intro q. exact (conj (rat_floor_spec q) (conj (rat_ceil_spec q) (conj (rat_trunc_spec q) (rat_round_spec q)))). Qed.
+Print Assumptions C07_rounding_algorithms.
+
+(* floor ceil round int numerator denominator rational float on ints and rationals *)
+Theorem C07_rounding_exact : forall (F : float_ops) (x : nnum), exact x -> wf x ->
+  num_unop F UFloor x = Ok (NI (Qfloor (qval x))) /\
+  num_unop F UCeil x = Ok (NI (Qceiling (qval x))) /\
+  num_unop F URound x = Ok (NI (q_round (qval x))) /\
+  num_conv F CInt x = Ok (NI (q_trunc (qval x))) /\
+  (exists n d, num_unop F UNumerator x = Ok (NI n) /\ num_unop F UDenominator x = Ok (NI (Zpos d)) /\
+               Z.gcd n (Zpos d) = 1 /\ qval x == n # d) /\
+  (exists q, num_conv F CRational x = Ok (NR q) /\ reduced q /\ q == qval x) /\
+  num_conv F CFloat x = Ok (NF (to_f_total F x)).
+Proof. exact @rounding_exact. Qed.
 Print Assumptions C07_rounding_exact.
+
+(* the same functions on a finite float act on its exactly decoded value; rational(f) is that value, in lowest terms *)
+Theorem C07_rounding_float_finite : forall (F : float_ops) (f : bits) (q : Q), fdecode f = FFin q ->
+  num_unop F UFloor (NF f) = Ok (NI (Qfloor q)) /\
+  num_unop F UCeil (NF f) = Ok (NI (Qceiling q)) /\
+  num_unop F URound (NF f) = Ok (NI (q_round q)) /\
+  num_conv F CInt (NF f) = Ok (NI (q_trunc q)) /\
+  num_conv F CRational (NF f) = Ok (NR q) /\ reduced q /\
+  num_conv F CFloat (NF f) = Ok (NF f).
+Proof. exact @rounding_float_finite. Qed.
+Print Assumptions C07_rounding_float_finite.
+
+(* infinities and NaN: floor/ceil/round hand the float back, int() and rational() raise (int(): finding F16, repaired) *)
+Theorem C07_rounding_float_nonfinite : forall (F : float_ops) (f : bits), (forall q, fdecode f <> FFin q) ->
+  num_unop F UFloor (NF f) = Ok (NF f) /\ num_unop F UCeil (NF f) = Ok (NF f) /\ num_unop F URound (NF f) = Ok (NF f) /\
+  num_conv F CInt (NF f) = Err EValue /\ num_conv F CRational (NF f) = Err EValue.
+Proof. exact @rounding_float_nonfinite. Qed.
+Print Assumptions C07_rounding_float_nonfinite.
+
+Theorem C07_int_of_nonfinite_original_returns_float : forall F : float_ops,
+  num_conv_original F CInt (NF 9218868437227405312%N) = Ok (NF 9218868437227405312%N).
+Proof. exact @int_of_nonfinite_original_returns_float. Qed.
+Print Assumptions C07_int_of_nonfinite_original_returns_float.
+
+(* vector (op) vector: defined iff the lengths agree and every element pair is; then element-wise *)
+Theorem C07_vectorize_pointwise : forall (body : nnum -> nnum -> outcome nnum) (l1 l2 : list nnum) (r : obj),
+  vectorize2 body (OVec l1) (OVec l2) = Ok r -> exists out, r = OVec out /\ pointwise2 body l1 l2 out.
+Proof. exact @vectorize2_pointwise. Qed.
+Print Assumptions C07_vectorize_pointwise.
+
+Theorem C07_vectorize_complete : forall (body : nnum -> nnum -> outcome nnum) (l1 l2 : list nnum),
+  length l1 = length l2 ->
+  (forall i x y, nth_error l1 i = Some x -> nth_error l2 i = Some y -> exists v, body x y = Ok v) ->
+  exists out, vectorize2 body (OVec l1) (OVec l2) = Ok (OVec out) /\ pointwise2 body l1 l2 out.
+Proof. exact @vectorize2_complete. Qed.
+Print Assumptions C07_vectorize_complete.
+
+(* vectors of different lengths are rejected (never a truncated zip) *)
+Theorem C07_vectorize_length_mismatch : forall (body : nnum -> nnum -> outcome nnum) (l1 l2 : list nnum),
+  length l1 <> length l2 -> vectorize2 body (OVec l1) (OVec l2) = Err EValue.
+Proof. exact @vectorize2_length_mismatch. Qed.
+Print Assumptions C07_vectorize_length_mismatch.
+
+(* a scalar is broadcast: it behaves as the vector of its copies *)
+Theorem C07_vectorize_broadcast : forall (body : nnum -> nnum -> outcome nnum) (x : nnum) (l : list nnum),
+  vectorize2 body (ONum x) (OVec l) = vectorize2 body (OVec (repeat x (length l))) (OVec l) /\
+  vectorize2 body (OVec l) (ONum x) = vectorize2 body (OVec l) (OVec (repeat x (length l))).
+Proof. exact @vectorize2_broadcast. Qed.
+Print Assumptions C07_vectorize_broadcast.
+
+Theorem C07_vectorize_scalar_and_non_number : forall (body : nnum -> nnum -> outcome nnum) (x y : nnum) (a : obj),
+  vectorize2 body (ONum x) (ONum y) = omap ONum (body x y) /\
+  vectorize2 body OOther a = Err EArg /\ vectorize2 body a OOther = Err EArg.
+Proof. intros body x y a. exact (conj (vectorize2_scalar body x y) (vectorize2_non_number body a)). Qed.
+Print Assumptions C07_vectorize_scalar_and_non_number.
+
+(* the wrapper adds no crash of its own *)
+Theorem C07_vectorize_no_panic : forall (body : nnum -> nnum -> outcome nnum) (a b : obj),
+  (forall x y, body x y <> Panic) -> vectorize2 body a b <> Panic.
+Proof. exact @vectorize2_no_panic. Qed.
+Print Assumptions C07_vectorize_no_panic.
+
+(* unary builtins vectorise element-wise; conversions do not vectorise *)
+Theorem C07_vectorize_unary : forall (body : nnum -> outcome nnum) (l : list nnum) (r : obj),
+  vectorize1 body (OVec l) = Ok r -> exists out, r = OVec out /\ pointwise1 body l out.
+Proof. exact @vectorize1_pointwise. Qed.
+Print Assumptions C07_vectorize_unary.
+
+Theorem C07_conv_not_vectorised : forall (F : float_ops) (c : conv) (l : list nnum),
+  builtin_conv F c (OVec l) = Err EType /\ builtin_conv F c OOther = Err EType.
+Proof. exact @conv_not_vectorised. Qed.
+Print Assumptions C07_conv_not_vectorised.
+
+(* non-vacuity: the hypotheses are met by ordinary data and the functions compute
+   (floats instantiated by a dummy record: only exact-level results are inspected) *)
+Definition dummy_ops : float_ops :=
+  let b := fun (_ _ : bits) => 0%N in
+  let c := fun (x _ : cplx) => x in
+  Build_float_ops (fun _ => 0%N) (fun _ => 0%N) b b b b b b b c c c c c c (fun x _ => x) (fun _ x => x)
+    (fun _ => 0%N) (fun _ _ => NF 0%N) (fun _ _ => NF 0%N) (fun x _ => x) (fun x _ => x) c.
+Example C07_nonvacuous :
+  exact (NR (1 # 2)) /\ wf (NR (-7 # 2)) /\ needs_nonzero ODiv = true /\ ~ qval (NI 2) == 0 /\
+  num_binop dummy_ops ODiv (NI 4) (NI 2) = Ok (NR (2 # 1)) /\
+  num_binop dummy_ops OAdd (NR (1 # 2)) (NR (1 # 2)) = Ok (NR (1 # 1)) /\
+  num_binop dummy_ops ODivFloor (NR (-1 # 2)) (NR (1 # 3)) = Ok (NR (-2 # 1)) /\
+  num_binop dummy_ops OModFloor (NR (-1 # 2)) (NR (1 # 3)) = Ok (NR (1 # 6)) /\
+  num_binop dummy_ops OModFloor (NI (-7)) (NI 2) = Ok (NI 1) /\
+  num_binop dummy_ops ORem (NR (-7 # 2)) (NI 2) = Ok (NR (-3 # 2)) /\
+  num_binop dummy_ops OPow (NI 2) (NI (-2)) = Ok (NR (1 # 4)) /\
+  num_binop dummy_ops OPow (NR (-2 # 3)) (NI (-3)) = Ok (NR (-27 # 8)) /\
+  num_binop dummy_ops OPow (NI 0) (NI (-1)) = Ok (NF 0%N) /\
+  level_op dummy_ops OMul = Some (num_mul dummy_ops) /\
+  num_mul dummy_ops (NI 3) (NF 5%N) = Ok (NF 0%N) /\ lift dummy_ops 2 (NI 3) = NF 0%N /\
+  num_unop dummy_ops URound (NR (-5 # 2)) = Ok (NI (-3)) /\
+  fdecode 4612811918334230528%N = FFin (5 # 2) /\ num_unop dummy_ops UFloor (NF 4612811918334230528%N) = Ok (NI 2) /\
+  (forall q, fdecode 9218868437227405312%N <> FFin q) /\
+  builtin2 dummy_ops OAdd (OVec [NI 1; NR (1 # 2)]) (ONum (NI 1)) = Ok (OVec [NI 2; NR (3 # 2)]) /\
+  builtin2 dummy_ops OAdd (OVec [NI 1; NI 2]) (OVec [NI 1]) = Err EValue.
+Proof.
+  unfold exact, wf, reduced. cbn [level qval].
+  repeat split; try (vm_compute; reflexivity); try (vm_compute; lia); try (vm_compute; discriminate);
+    try (intros q; vm_compute; discriminate).
+Qed.
